@@ -72,6 +72,19 @@ func (c04) Generate(seed uint64, tier string, index int) any {
 			sc.Dst.Entries = append(sc.Dst.Entries, fstree.Entry{Path: fstree.Name(l.Name + "/occupied"), Type: "f", Perm: 0o644, Mtime: 1_400_000_000, Content: g.Content(10)})
 		}
 	}
+	// destination files with a second hard link (an unlisted twin next to them):
+	// replacing the listed path must still be a rename, never a write into the
+	// shared inode
+	for _, d := range append([]fstree.Entry(nil), sc.Dst.Entries...) {
+		if d.Type == "f" && d.Content != nil && d.HardlinkTo == "" && g.R.Intn(6) == 0 {
+			twin := d
+			twin.Path = fstree.Name(filepath.Join(filepath.Dir(string(d.Path)), ".twin-"+filepath.Base(string(d.Path))))
+			twin.HardlinkTo = d.Path
+			if len(filepath.Base(string(twin.Path))) < 200 && sc.Dst.Find(string(twin.Path)) == nil {
+				sc.Dst.Entries = append(sc.Dst.Entries, twin)
+			}
+		}
+	}
 	// replaced symlinks: half of the source symlinks meet a symlink with another target
 	for _, l := range ls {
 		if l.Entry.Type == "l" && l.Name != "." && sc.Dst.Find(l.Name) == nil && sc.Dst.Find(l.Name+"/occupied") == nil && g.R.Bool() {
